@@ -316,6 +316,39 @@ var ruleZipMarkers = &core.Rule{ID: "R19.1", Min: 8,
 				}
 			}
 			s.Check(n >= 1, "apk uses the entry walker", c.Pos(apk[0].Pos), fmt.Sprint(n), "the APK detector does not look at entry names")
+			// the names it looks for are the entries that make an archive an Android package (file(1), Magdir/archive)
+			{
+				want := map[string]bool{"AndroidManifest.xml": true, "META-INF/com/android/build/gradle/app-metadata.properties": true, "classes.dex": true, "resources.arsc": true, "res/drawable": true}
+				got := map[string]bool{}
+				fns := append([]*ssa.Function{apk[0].DetFn}, apk[0].DetFn.AnonFuncs...)
+				for _, fn := range fns {
+					for _, b := range fn.Blocks {
+						for _, in := range b.Instrs {
+							if cv, ok := in.(*ssa.Convert); ok && core.IsByteSlice(cv.Type()) {
+								if k, isK := core.ConstString(cv.X); isK {
+									got[k] = true
+								}
+							}
+						}
+					}
+				}
+				if len(got) > 0 {
+					var extra, missing []string
+					for k := range got {
+						if !want[k] {
+							extra = append(extra, k)
+						}
+					}
+					for k := range want {
+						if !got[k] {
+							missing = append(missing, k)
+						}
+					}
+					sort.Strings(extra)
+					sort.Strings(missing)
+					s.Check(len(extra) == 0 && len(missing) == 0, "apk marker names", c.Pos(apk[0].Pos), fmt.Sprintf("%d entry names", len(got)), fmt.Sprintf("the APK detector's entry names differ from the Android package markers (not a marker: %q; missing: %q): an archive without any of the real markers can be reported as APK, or one with them is not", extra, missing))
+				}
+			}
 		} else {
 			s.Bad("apk precedes jar", "-", "apk node not found")
 		}
